@@ -223,6 +223,11 @@ def r_filter(ctx):
                             arms[p] = seq if t2 == ('c', 0) else ('sub', seq, ('slice', t2, NONE, NONE))
                 continue
         arms[pol] = t
+    # `s = whole` first, then `if only_last: s = s[-k:]` (or the mirror image): the unconditional definition is the other arm
+    if None in arms and len(sel_defs) == 2:
+        for p_ in (True, False):
+            if p_ in arms and (not p_) not in arms:
+                arms[not p_] = arms[None]
     want_last = ('sub', seq, ('slice', ('un', '-', k), NONE, NONE))
     ok = arms.get(True) == want_last and arms.get(False) == seq
     recognised = arms.get(True) is not None and arms.get(False) is not None
